@@ -1,18 +1,27 @@
 #!/bin/bash
-# usage: tools/seedtest.sh <seed-dir> [props...]  — applies a seeded patch to a scratch copy of /repo and runs the checks there.
+# usage: tools/seedtest.sh <seed-dir> [props...]  — applies a seeded patch to a scratch copy of /repo and runs the checks there
+# (evidence and replay files go to the scratch directory, never to /verif/evidence).
 set -u
 SEED="$(cd "$1" && pwd)"; shift
 PROPS="$@"
 [ -z "$PROPS" ] && PROPS=$(python3 -c "import json;print(json.load(open('$SEED/meta.json'))['property'])")
 W=$(mktemp -d /tmp/seedrun.XXXXXX)
 rsync -a --exclude .git /repo/ "$W/repo/"
+mkdir -p "$W/verif"; cp -r /verif/spec /verif/props "$W/verif/"; [ -f /verif/known_findings.json ] && cp /verif/known_findings.json "$W/verif/"
 if ! (cd "$W/repo" && patch -p1 -s < "$SEED/patch.diff"); then echo "PATCH-FAILED $SEED"; rm -rf "$W"; exit 3; fi
 rc=0
 for p in $PROPS; do
-  out=$(cd /verif && VERIF_REPO="$W/repo" ./bin/govc check -prop $p -repo "$W/repo" -no-evidence 2>&1)
+  out=$(cd /verif && ./bin/govc check -prop $p -repo "$W/repo" -verif "$W/verif" 2>&1)
   r=$?
-  echo "[$p rc=$r] $(echo "$out" | grep -E 'VIOLATION|UNDECIDED' | head -5 | tr '\n' ' ')"
+  echo "[$p rc=$r]"
+  echo "$out" | grep -E 'VIOLATION|UNDECIDED|KNOWN' | head -6 | sed "s|$W||g"
   echo "$out" | tail -1
+  if [ "${SHOW_REPLAY:-}" = 1 ]; then
+    for f in "$W"/verif/replays/$p/*.json; do [ -f "$f" ] && python3 -c "
+import json,sys
+d=json.load(open('$f')); r=d.get('replay') or {}
+print('  replay', d['obligation'], 'confirmed=',r.get('confirmed'), '|', r.get('call'), '|', r.get('note'))"; done
+  fi
   [ $r -ne 0 ] && rc=$r
 done
 rm -rf "$W"
